@@ -40,12 +40,16 @@ fn k_c11_point(nside: u32, role: u8, region: u8, quad: u8) {
 }
 
 /// centre of every cell hashes back to the cell (in the plane), offsets (0.5, 0.5); sph_coo inverts hash_with_dxdy
-fn k_c11_center(nside: u32) {
+/// part: 0..=2 = cell numbers of the first / second / third third of the range (any partition is exhaustive), 255 = all
+fn k_c11_center(nside: u32, part: u8) {
   let h: u64 = kani::any();
   kani::assume(h < c11_n_hash(nside));
+  let third = c11_n_hash(nside) / 3;
+  if part < 3 { kani::assume(h >= third * part as u64 && (part == 2 || h < third * (part as u64 + 1))); }
   let (cx, cy) = hp::ring::center_of_projected_cell(nside, h);
   unsafe { PLANE = (cx.to_bits(), cy.to_bits()); }
-  kani::cover!(h == c11_n_hash(nside) - 1, "last cell");
+  kani::cover!(part == 2 || part == 255 || h == third * (part as u64 + 1) - 1, "last cell of the part");
+  kani::cover!(part < 2 || h == c11_n_hash(nside) - 1, "last cell");
   let (hh, dx, dy) = hp::ring::hash_with_dxdy(nside, 0.0, 0.0);
   assert!(hh == h, "C11: hashing the centre of a RING cell does not return the cell");
   assert!(dx > 0.4999 && dx < 0.5001 && dy > 0.4999 && dy < 0.5001, "C11: offsets of a cell centre are not (0.5, 0.5)");
